@@ -150,3 +150,40 @@ fn kf_frechet_neg_inf_f64() {
     let x: f64 = d.sample(&mut rng);
     kani::assert(x >= 0.0, "Frechet sample below location");
 }
+
+// ---------------------------------------------------------------- rejection samplers: one arbitrary iteration
+/// Zipf (f64): one iteration of the rejection loop, every (n, s) in E, every pair of words: a returned rank is never
+/// below 1 and no debug assertion fires.  NaN-freedom is NOT claimed: under the assumed pow contract (no magnitude
+/// bound) t can be +inf and 0 * t is NaN; excluding that needs the accuracy of powf.
+/// The upper bound x <= n is NOT claimed: it depends on the accuracy of powf at the top of inv_cdf.
+#[kani::proof]
+#[kani::unwind(1)]
+#[kani::stub(libm::pow, lc::pow)]
+#[kani::stub(libm::log, lc::log)]
+#[kani::stub(libm::exp, lc::exp)]
+#[kani::stub(libm::floor, lc::floor)]
+fn c03_zipf_step_f64() {
+    let n: f64 = kani::any(); let s: f64 = kani::any();
+    kani::assume(n >= 1.0 && n <= 1e15 && s >= 0.0 && s <= 1e3);
+    let d = rd::Zipf::<f64>::new(n, s).unwrap();
+    let mut rng = WordsRng::<2>::any();
+    let x: f64 = d.sample(&mut rng);
+    kani::cover!(rng.i == 2, "an iteration accepts");
+    kani::assert(!(x < 1.0), "Zipf rank below 1");
+}
+
+/// Zeta (f64): one iteration, every s in E, every pair of words: the value is >= 1, never NaN (infinite only via the
+/// documented overflow return), and the internal debug_assert!(x >= 1) never fires.
+#[kani::proof]
+#[kani::unwind(1)]
+#[kani::stub(libm::pow, lc::pow)]
+#[kani::stub(libm::floor, lc::floor)]
+fn c03_zeta_step_f64() {
+    let s: f64 = kani::any();
+    kani::assume(s > 1.0 && s <= 1e3);
+    let d = rd::Zeta::<f64>::new(s).unwrap();
+    let mut rng = WordsRng::<2>::any();
+    let x: f64 = d.sample(&mut rng);
+    kani::cover!(rng.i >= 1, "an iteration returns");
+    kani::assert(x >= 1.0, "Zeta value below 1 or NaN");
+}
